@@ -3,7 +3,7 @@
 generated ones: the statement is printed by Coq from the proved lemma and closed with `exact @lemma`. Idempotent."""
 import subprocess, re, os, sys
 COQ = os.path.join(os.path.dirname(os.path.dirname(os.path.abspath(__file__))), "coq")
-EXTRA = {"C04": ["Ctpg.Model.Driver", "Ctpg.Proofs.UtilsDriverLink"], "C01": ["Ctpg.Model.LRGen", "Ctpg.Model.LRGenWords", "Ctpg.Proofs.LRGenWordsRefine", "Ctpg.Proofs.GenWf", "Ctpg.Proofs.GenClosure", "Ctpg.Proofs.KernelWordsRefine"]}
+EXTRA = {"C04": ["Ctpg.Model.Driver", "Ctpg.Proofs.UtilsDriverLink"], "C01": ["Ctpg.Model.LRGen", "Ctpg.Model.LRGenWords", "Ctpg.Proofs.LRGenWordsRefine", "Ctpg.Proofs.GenWf", "Ctpg.Proofs.GenClosure", "Ctpg.Proofs.KernelWordsRefine", "Ctpg.Proofs.ClosureWordsRefine"]}
 BASE = ["Ctpg.Base.Prelude", "Ctpg.Model.Grammar", "Ctpg.Model.Containers", "Ctpg.Model.Utils", "Ctpg.Proofs.ContainersBits", "Ctpg.Proofs.ContainersVec", "Ctpg.Proofs.ContainersSort", "Ctpg.Proofs.UtilsCorrect"]
 def coq_type(imports, lemma):
     src = "".join(f"Require Import {m}.\n" for m in imports) + "Set Printing Width 100000.\nSet Printing Depth 100000.\n" + f"Check @{lemma}.\n"
@@ -27,6 +27,7 @@ ADD = {
          ("C01_nullable_and_first_sets_on_64_bit_words_are_the_models", "w_first_sets_refine", "LINK (the generator's fixpoints on the real representation): the nullable and FIRST computations of the generator mirror, re-expressed on cbitset words with cb_new / cb_set / cb_test / cb_add and operator== exactly where the C++ uses them (Model/LRGenWords.v), return for EVERY grammar with in-range symbols the sets the abstract mirror computes - including the termination test `before == after` of the FIRST fixpoint, which is set equality because these sets keep clean padding"),
          ("C01_first_sets_on_words_refine", "w_nterm_first_refines", "the FIRST table alone, from any nullable set"),
          ("C01_an_out_of_range_symbol_throws_at_word_level", "out_of_range_throws", "the range hypothesis is necessary: the list model ignores an out-of-range index, the word level throws 'Index access out of range' (what makes an undeclared symbol a construction failure)"),
+         ("C01_closure_children_on_words_are_the_models", "w_closure_children_refines_in_range", "LINK (closure): the direct closure children of an item - FIRST of the rest of the rule as a cbitset, one test per term, the item's own lookahead when the rest is nullable and not in FIRST, with the short-circuit of the C++ `&&` - computed on words equal LRGen.closure_children for every grammar with in-range symbols"),
          ("C01_state_identity_on_words_is_the_models_same_items", "kernel_equality_is_same_items", "LINK (state identity): `states[i].kernel == kernel` on the item-index bitsets the real code builds with set(make_situation_idx(..)) decides exactly LRGen.same_items on the kernels as item lists - for every grammar and all kernels of in-range items (index injectivity + clean padding)"),
          ("C01_kernel_bitset_is_the_item_set", "w_kernel_ok", "the bitset built from a kernel has exactly the bits of its items"),
          ("C01_symbol_names_are_compared_as_whole_strings", "str_equal_spec", "utils::str_equal on C strings = equality of the strings up to their terminators, nothing behind a terminator is read"),
